@@ -93,3 +93,31 @@ def m_callable(ex, args, kw, st, fr, node):
         if m is not None:
             return _out(st, VBool(z3.BoolVal(bool(getattr(m, 'callable', False)))))
     raise Unsupported('callable(%r)' % (v,))
+
+
+# hasattr on plain values (str / bytes / int ...): decided on the Python type; everything else as before
+
+
+
+def _install_hasattr():
+    from . import builtins_model as bm
+    prev = bm.lookup(builtins.hasattr)
+
+    @model(builtins.hasattr)
+    def m_hasattr(ex, args, kw, st, fr, node):
+        o, n = args
+        if isinstance(n, VStr):
+            if isinstance(o, VStr):
+                return _out(st, VBool(z3.BoolVal(hasattr(o.s, n.s))))
+            if isinstance(o, VSeq) and o.pytype in ('bytes', 'bytearray', 'list'):
+                return _out(st, VBool(z3.BoolVal(hasattr({'bytes': b'', 'bytearray': bytearray(), 'list': []}[o.pytype], n.s))))
+            if isinstance(o, VNone):
+                return _out(st, VBool(z3.BoolVal(hasattr(None, n.s))))
+            if isinstance(o, VObj) and not isinstance(o.cls, type) and (o.oid, n.s) not in st.heap:
+                m = ex.reg.models.get(o.cls)
+                if m is not None and m.getattr(ex, o, n.s, st) is not None:
+                    return _out(st, VBool(z3.BoolVal(True)))
+        return prev(ex, args, kw, st, fr, node)
+
+
+_install_hasattr()
